@@ -41,7 +41,10 @@ type c13Case struct {
 	// Pre: a call made through the shared handler before the concurrent calls start ("corrupt-crc": gzip with intact deflate data and a wrong CRC trailer; "corrupt-trunc": truncated gzip data).
 	Pre string `json:"pre,omitempty"`
 	// RR: explore around the round-robin default scheduler instead of run-to-block.
-	RR     bool  `json:"rr,omitempty"`
+	RR bool `json:"rr,omitempty"`
+	// Early: the handler answers after the first request message without
+	// waiting for the end of the request stream (calls send one message).
+	Early  bool  `json:"early,omitempty"`
 	Bound  int   `json:"bound"`
 	Sub    int   `json:"sub"`  // sub-shard of the root's children
 	Subs   int   `json:"subs"` //
@@ -52,6 +55,9 @@ func (k c13Case) key() string {
 	pol := "rtb"
 	if k.RR {
 		pol = "rr"
+	}
+	if k.Bound > 1 {
+		pol += fmt.Sprintf("/d%d", k.Bound)
 	}
 	return fmt.Sprintf("%s/%s/%s/%d-of-%d", k.Name, k.Cfg, pol, k.Sub, k.Subs)
 }
@@ -73,6 +79,12 @@ func c13Payloads(call int, sizes []int) [][]byte {
 // one response per request ('r' + request); single-response kinds get 'r' +
 // concatenation.  Headers and trailers echo the call id.
 func c13Handler(kind Kind, rec *c13Recorder, opts ...connect.HandlerOption) *connect.Handler {
+	return c13HandlerEarly(kind, rec, false, opts...)
+}
+
+// c13HandlerEarly: with early set, the handler answers after the first request
+// message without waiting for the end of the request stream.
+func c13HandlerEarly(kind Kind, rec *c13Recorder, early bool, opts ...connect.HandlerOption) *connect.Handler {
 	return NewHandler(kind, func(ctx context.Context, s HStream) error {
 		id := s.RequestHeader().Get("X-Call")
 		var got [][]byte
@@ -86,6 +98,9 @@ func c13Handler(kind Kind, rec *c13Recorder, opts ...connect.HandlerOption) *con
 			}
 			got = append(got, cloneBytes(m.Value))
 			rec.retain("handler-recv:"+id, m.Value)
+			if early {
+				break
+			}
 		}
 		s.ResponseHeader().Set("X-Echo", id)
 		s.ResponseTrailer().Set("X-Tr", id)
@@ -263,7 +278,7 @@ func c13Pre(k c13Case, h http.Handler) {
 func c13Body(k c13Case, s *bsched.Sched) any {
 	obs := &c13Obs{}
 	rec := &c13Recorder{}
-	h := c13Handler(k.Cfg.Kind, rec, k.Cfg.HandlerOptions()...)
+	h := c13HandlerEarly(k.Cfg.Kind, rec, k.Early, k.Cfg.HandlerOptions()...)
 	c13Pre(k, h)
 	tr := &memhttp.Transport{Handler: h, Proto: 2, ReqMode: k.Cfg.ReqMode, MutateURL: true}
 	if s != nil {
@@ -383,7 +398,7 @@ func c13Solo(t *testing.T, k c13Case) []string {
 		}
 		for i, call := range k.Calls {
 			rec := &c13Recorder{}
-			h := c13Handler(k.Cfg.Kind, rec, k.Cfg.HandlerOptions()...)
+			h := c13HandlerEarly(k.Cfg.Kind, rec, k.Early, k.Cfg.HandlerOptions()...)
 			c13Pre(k, h)
 			tr := &memhttp.Transport{Handler: h, Proto: 2, ReqMode: k.Cfg.ReqMode, SyncCloseReq: true}
 			cl := NewClient(tr, k.Cfg)
